@@ -296,7 +296,7 @@ func TestC05_Exhaustive(t *testing.T) {
 	rec.Exhaustive = true
 	rec.DupFree = true
 	defer finish(t, rec)
-	triples := pick(20, 400)
+	triples := pick(10, 400)
 	rec.Bounds = fmt.Sprintf("every ordered pair of the %d-input pool x 8 instance kinds (tokenizers as constructed and with all options off), plus per pair %d seeded third inputs (triples), plus every pair with the first feed aborted after 1 token and 2 has-next queries per token",
 		len(c05Pool), triples/len(c05Kinds))
 	n := len(c05Pool)
@@ -306,7 +306,7 @@ func TestC05_Exhaustive(t *testing.T) {
 		for _, kind := range c05Kinds {
 			optSets := []int{-1}
 			isTok := kind == "generic" || kind == "expression" || kind == "csv" || kind == "mustache" || kind == "csv-custom" || kind == "generic-custom"
-			if isTok {
+			if isTok && thorough() {
 				optSets = []int{-1, 0}
 			}
 			for _, o := range optSets {
